@@ -224,6 +224,13 @@ def try_to_save_module(hashed_grammar, file_io, module, lines, pickling=True, ca
                 'Tried to save a file to %s, but got %r.' % (path, e),
                 Warning
             )
+        except RecursionError:
+            # Very deeply nested code can be parsed (the parser is not
+            # recursive), but not pickled.
+            warnings.warn(
+                'Tried to save a file to %s, but it is nested too deeply to be pickled.' % path,
+                Warning
+            )
         else:
             try:
                 _remove_cache_and_update_lock(cache_path=cache_path)
